@@ -213,10 +213,11 @@ def cuboid(run, funcs, pid):
                         run.violation('%s: %s' % (tag, bad), engine.save_replay(pid, pl))
                     else:
                         run.suspect.append('%s axis %d: grid-map counterexample %r does not reproduce natively' % (tag, ax, pl))
-                # resolution: the box itself spans at least a fifth of the grid range along every axis (so that the grid resolves
-                # 2^-52 x 5 box widths whatever the other axes look like - anisotropic boxes, unit dummy axes of 1D / 2D)
-                vv, m = run.prove('%s axis %d: the box spans at least 1/5 of the integer-grid range (resolution independent of the other axes)' % (tag, ax),
-                                  H, z3.Not(W * to_z3(giw.items[ax]) * 5 >= 1), timeout=30, cross=False, on_sat='caller')
+                # resolution: the (tripled) box spans at least 1/64 of the grid range along every axis, whatever the other axes look like
+                # (anisotropic boxes, unit dummy axes of 1D / 2D): the 52-bit grid must resolve every axis of the box; the pinned code uses 1/4,
+                # the generous constant leaves room for any reasonable padding
+                vv, m = run.prove('%s axis %d: the box spans at least 1/64 of the integer-grid range (resolution independent of the other axes)' % (tag, ax),
+                                  H, z3.Not(W * to_z3(giw.items[ax]) * 64 >= 1), timeout=30, cross=False, on_sat='caller')
                 if vv == 'sat':
                     pl = {'kind': 'grid_resolution', 'dim': dim, 'periodic': periodic, 'axis': ax}
                     bad = check_grid_resolution_native(pl)
@@ -248,7 +249,7 @@ def check_grid_resolution_native(p, profile='debug'):
                 return 'iloc panics for a corner of the box'
             for k in range(d):
                 span = int(o[1][1 + k]) - int(o[0][1 + k])
-                if span < 2 ** 52 / (13.5 if per else 5.5):      # periodic: the tripled box spans a quarter of the range, the box itself a twelfth
+                if span < 2 ** 52 / (3 * 64.5 if per else 64.5):      # periodic: the tripled box is measured, the box itself is a third of it
                     return ('box anchor %r width %r (%s, %s): along axis %d the two ends of the box are only %d grid units apart (2^52 / %.3g): the integer grid does not '
                             'resolve the box along that axis [%s build]' % (a, w, p['dim'], 'periodic' if per else 'reflective', k, span, 2 ** 52 / max(span, 1), prof))
     return None
